@@ -30,19 +30,24 @@ class C10(Prop):
         "rtoks f (C10_lex), the parser builds exactly rtree_of f with no error (C10_parse_tokens), parse_relaxed/from_str succeed with that "
         "tree and print back the text (C10_lossless, C10_from_str), and the accessors entries/relations/name/archqual/version/architectures/"
         "profiles/substvars report exactly the written content, negated architectures included, for EVERY well-formed field (C10_content, "
-        "C10_full_holds). LOSSY clause, also proved: for every well-formed field without substitution variables in lossy_dom (no LF in the "
-        "whitespace inside a relation, nothing between ':' and a qualifier; LF free around ',' and '|'), the lossy reader (C14's model "
-        "RelLossy.v: split(','), trim, split('|'), trim, a lexer run per relation, the token reader, C14's debversion model) returns exactly "
-        "the content (C10_lossy, C10_lossy_full_holds, C10_lossy_value) = what the lossless accessors report (C10_lossy_agrees_with_lossless); "
-        "each restriction of lossy_dom is shown necessary by a witness (C10_lossy_dom_needed, 12 fields). History lemmas about the code "
-        "before the fixes this property led to: C10_prefix_epoch_refuted, C10_prefix_space_refuted, C10_prefix_arch_negation_refuted. "
+        "C10_full_holds). LOSSY clause, also proved, DOMAIN = every well-formed field WITHOUT SUBSTITUTION VARIABLES (wf_rfield false; the lossy "
+        "reader has no substitution variables: C10_lossy_substvar_needed), every whitespace slot any SP/TAB/LF run: the lossy reader (C14's model "
+        "RelLossy.v as patched by proposed_fixes/C14-lossy-newlines.patch: split(','), trim, split('|'), trim, a lexer run per relation, the token "
+        "reader with NEWLINE as white space and white space skipped after the ':' of a qualifier, C14's debversion model) returns exactly the "
+        "content (C10_lossy, C10_lossy_full_holds, C10_lossy_value) = what the lossless accessors report (C10_lossy_agrees_with_lossless). Before "
+        "that patch the lossy reader REJECTED a line break inside a relation and a blank after a qualifier's ':' -- twelve counterexamples to this "
+        "clause on the code of the time (C10_lossy_old_newline_refuted, against RelLossy.oldnl_*); an earlier version of this cone had excluded them "
+        "by a domain predicate. History lemmas about the lossless code before the fixes this property led to: C10_prefix_epoch_refuted, "
+        "C10_prefix_space_refuted, C10_prefix_arch_negation_refuted. "
         "IMAGE of the reader: every text read with zero errors (any string, both allow_substvar settings) is the rendering of exactly one "
         "LIBERAL layout (RelGrammarAll.afield: white space token lists incl. CR, any </>/= run or none as operator, any non-empty IDENT/':' run "
         "as version, any '!'/name sequence in [...], any name | '!' ws name sequence in <...>, also empty, any IDENT/':' run in ${...}) whose tree "
         "is the tree read and whose content, with the accessors' documented panics, is what the accessors report (C10_image, C10_image_sound, "
         "C10_image_iff, C10_image_unique); the well-formed fields embed (C10_image_embeds); the lexer's outputs are characterised (C10_lexable); "
         "on EVERY tree the accessor model of cone C11 (RelEdit.structure) yields the same entries/alternatives as racc (C10_acc_is_structure, C10_image_structure). "
-        "Nothing is partial.")
+        "Nothing is partial. Outside the grammar (hence outside these theorems, recorded in docs/cones/C10.md): ${...} is admitted only as a whole "
+        "entry (\"pkg (= ${binary:Version})\" is read with errors and name() panics on the relaxed tree); \"<! x>\" is read without error but "
+        "profiles() returns [Disabled(\"\"), Enabled(\"x\")] (finding profile-not-space, fix proposed).")
     level_note = ("Model: Lexer (debian-control/src/relations.rs), fn parse and the read accessors of debian-control/src/lossless/relations.rs "
                   "(coq/model/RelLex.v, RelParse.v, RelAcc.v); lossy reader: debian-control/src/lossy/relations.rs as modelled by the cone of C14 "
                   "(coq/model/RelLossy.v, tied to the code by C14's streams and by this cone's rel-doc stream); "
@@ -50,8 +55,8 @@ class C10(Prop):
                   "coq/model/RelGrammarAll.v (lexable, afield, arender, awf, atree_of, acontent, lib_of).")
     rule = ("rel-doc: systematic small fields (every combination of optional parts x trailing whitespace x position) + random inhabitants of "
             "RelGrammar.rfield in four whitespace styles (text rendered by the generator and re-rendered by the extracted rrender, wf_rfield and "
-            "lossy_dom checked by the extracted definitions), implementation compared with rcontent; the lossy reader's value is compared with "
-            "the lossless accessors' on the implementation; rel-doc-model: the same texts through the model of parser+accessors; rel-acc: "
+            "lossy_dom (= no substitution variables) checked by the extracted definitions), implementation compared with rcontent; the lossy reader "
+            "is run on EVERY generated field without substitution variables and its value compared with the lossless accessors' on the implementation; rel-doc-model: the same texts through the model of parser+accessors; rel-acc: "
             "regression texts + corpus + all strings of length <= n over the 21-symbol relation alphabet (n=3 quick, 4 thorough) + rendered "
             "fields and their mutations, model of parser+accessors against the implementation (panic sites included); "
             "non-trivial = a relation with at least one optional part")
@@ -69,6 +74,8 @@ class C10(Prop):
                    "names, versions, architecture and profile names are non-empty strings over [A-Za-z0-9.+~-]; an epoch is a canonical decimal <= 4294967295",
                    "terms inside [...] and <...> are separated by at least one whitespace character; whitespace is SP, TAB or LF",
                    "the lossless reader is the one of /repo 4b18f7c or later (fixes 0eb8794, c2fa7c8, 4b18f7c, 43dd02f, 541b0f5)",
+                   "the lossy reader is the one of /repo with proposed_fixes/C14-lossy-newlines.patch (folded fields); lossy clause: no substitution variables",
+                   "a substitution variable is a whole entry (\"${misc:Depends}\"), never part of a relation; \"!\" is directly followed by its name",
                    "the upstream part of a version contains colons only when there is an epoch (Policy 5.6.12)"]
 
     def streams(self, tier, rng):
